@@ -193,6 +193,20 @@ def strip_bonding_descriptors(fragment_string):
                                                                      rings)
             smile += part_str
             current_order = None
+        # the expansion operator; the copies it stands for are nodes as well,
+        # so whatever follows refers to the nodes as read_cgsmiles numbers them
+        elif token == '|':
+            smile += token
+            n_mon = ""
+            while smile_iter.peek() is not None and smile_iter.peek().isdigit():
+                n_mon += next(smile_iter)
+            smile += n_mon
+            if n_mon:
+                # a node is repeated or a branch together with its anchor
+                span = 1 if smile[-len(n_mon)-2] == ']' else node_count - prev_node
+                prev_node += (int(n_mon) - 1) * span
+                node_count += (int(n_mon) - 1) * span
+            current_order = None
         elif token in '] H . - = # $ : + -':
             smile += token
         # deal with ez isomers
